@@ -4,6 +4,7 @@ CONSTANTS
   MaxLen = 2
   Levels = {"debug", "info", "warn", "error"}
   Modes = {"arg", "fmt"}
+  L1Variant = "fixed"
 INVARIANT DecoderSane
 INVARIANT EmitCases
 CHECK_DEADLOCK FALSE
